@@ -34,7 +34,7 @@ def lattice(tier):
   for use01, alpha in itertools.product((False, True), alphas):
     bounds = [(None, None)]
     if alpha == "auto_po2":
-      bounds.append((-2, 3))
+      bounds += [(-2, 3), (None, 0), (0, None)]
       if tier == "thorough":
         bounds += [(None, 1), (-4, None)]
     for mn, mx in bounds:
